@@ -139,6 +139,56 @@ def dispatch_vectors(args):
     return [v for v in c15.work((role, level, seed, types, lens, [])) if v["k"] == "inj"]
 
 
+def write_vectors(args):
+    """origin side: write(frame, traffic_direct) of single-frame messages at a network node of every level"""
+    from checks import c15
+    from harness import sim
+    level, seed = args
+    rng = random.Random(seed)
+    nd = c15.Node("net", level, seed)
+    o, chip, s = nd.o, nd.chip, nd.s
+    st = __import__("circuitpython_nrf24l01.network.structs", fromlist=["x"])
+    me = nd.addr
+    dests = {k: v for k, v in c15.dest_classes(me, level).items() if k in ("self", "child", "descendant", "parent-side")}
+    dests["master"] = 0
+    if level:
+        dests["parent"] = me & ((1 << (3 * (level - 1))) - 1)
+    out = []
+    for cls, to in sorted(dests.items()):
+        if to == me and cls != "self":
+            continue
+        directs = [56, to] + ([dests["child"]] if "child" in dests else []) + ([dests["parent"]] if "parent" in dests else [])
+        for direct in sorted(set(directs)):
+            if direct == me:
+                continue
+            for typ in (0, 65, 127, 128, 191, 192, 255):
+                n = rng.choice([0, 5, 24])
+                msg = bytes(rng.randrange(256) for _ in range(n))
+                h = st.RF24NetworkHeader(to, typ)
+                cfg = dict(addr=o.node_address, lvl=o.multicast_level, role="net", allowMc=bool(o.allow_multicast),
+                           relay=bool(o.multicast_relay), retSys=bool(o.ret_sys_msg), parent=True)
+                nd.air.log.clear()
+                q0 = len(o.queue)
+                t0 = s.now
+                s.deadline = t0 + 3_000_000_000
+                exc, ret = "none", False
+                try:
+                    ret = o.write(st.RF24NetworkFrame(h, msg), direct)
+                except sim.WatchdogExpired:
+                    exc = "Hang"
+                except Exception as e:  # noqa
+                    exc = type(e).__name__
+                s.deadline = None
+                dt = (s.now - t0) // 1000
+                sent = [dict(phys=list(p["addr"]), data=list(p["data"]), noack=not p["want_ack"]) for p in nd.air.log]
+                out.append(dict(k="write", cfg=cfg, to=to, id=h.frame_id, type=typ, msg=list(msg), direct=direct, exc=exc, ret=bool(ret),
+                                queued=len(o.queue) - q0, sent=sent, waited=bool(dt >= 2500), dt=int(dt), level=level, cls=cls,
+                                prefix=0xCC, suffix=[0xC3, 0x3C, 0x33, 0xCE, 0x3E, 0xE3]))
+                while o.available():
+                    o.read()
+    return out
+
+
 def dispatch_phase(chk):
     """single-frame dispatch conformance: NetDispatch!Outcome (TLA+) vs what a real node of every role / level does with one
     received frame: queued or not, forwarded where and how, NETWORK_ACK owed or not, relayed or not"""
@@ -153,6 +203,13 @@ def dispatch_phase(chk):
     for v in vec:
         v["sent"] = v.pop("sent_full")
         chk.case(("dispatch", v["role"], v["level"], tuple(v["raw"][:8]), len(v["raw"]), v["cfg"]["relay"]))
+    with ProcessPoolExecutor(16) as ex:
+        wv = [v for res in ex.map(write_vectors, [(lvl, chk.seed * 59 + lvl) for lvl in range(5)]) for v in res]
+    for v in wv:
+        v["role"], v["raw"] = "net", [0, 0, v["to"] & 255, v["to"] >> 8, 0, 0, v["type"], 0]
+        chk.case(("write", v["level"], v["cls"], v["direct"], v["type"]))
+    chk.extra["write_vectors"] = len(wv)
+    vec += wv
     chk.traces += len(vec)
     verdicts, st = tlc.validate("TraceDispatch", "TraceDispatch", jsonable(vec), shard=2000, quiet=True, timeout=2400)
     chk.add_stats(st, "single-frame dispatch vectors judged against NetDispatch!Outcome")
